@@ -135,7 +135,7 @@ def u1_excerpt():
 
 
 def splice_method(impl, name, contract, ensures_false):
-    rx = re.compile(r'^(    fn %s\((.*?)\)) -> (\w+) \{' % name, re.M)
+    rx = re.compile(r'^(    fn %s\(([^{}]*?)\)) -> (\w+) \{' % name, re.M | re.S)
     m = rx.search(impl)
     if not m or len(rx.findall(impl)) != 1:
         raise S.SliceError("impl Instr: signature of %s not found exactly once" % name)
@@ -146,7 +146,7 @@ def splice_method(impl, name, contract, ensures_false):
 
 
 def splice_fn(text, name, contract, ret='fired', ensures_false=False):
-    rx = re.compile(r'^((?:pub\(crate\) )?fn %s\((.*?)\)) -> (bool|Vec<Line>) \{' % name, re.M)
+    rx = re.compile(r'^((?:pub\(crate\) )?fn %s\((.*?)\)) -> (bool|Vec<Line>) \{' % name, re.M | re.S)
     m = rx.search(text)
     if not m:
         raise S.SliceError("signature of %s not found" % name)
@@ -154,6 +154,21 @@ def splice_fn(text, name, contract, ret='fired', ensures_false=False):
     if ensures_false:
         c = (re.sub(r'ensures.*', '', c, flags=re.S) if 'ensures' in c else c) + "    ensures false,\n"
     return text[:m.start()] + "%s -> (%s: %s)\n%s{" % (m.group(1), ret, m.group(3), c) + text[m.end():]
+
+
+# contracts for helper functions that exist only on repaired trees
+OPTIONAL_FN_CONTRACTS = {
+    'fits_reg_offset': ("    ensures r == (-16384 <= offset <= 16383),\n", 'C05.opt.fits_reg_offset.post'),
+}
+
+
+def splice_fn_any(text, name, contract, ensures_false):
+    rx = re.compile(r'^((?:pub\(crate\) )?fn %s\((.*?)\)) -> (\w+) \{' % name, re.M | re.S)
+    m = rx.search(text)
+    if not m:
+        raise S.SliceError("signature of %s not found" % name)
+    c = "    ensures false,\n" if ensures_false else contract
+    return text[:m.start()] + "%s -> (r: %s)\n%s{" % (m.group(1), m.group(3), c) + text[m.end():]
 
 
 def build(canary=False):
@@ -203,9 +218,36 @@ def build(canary=False):
     p3 = splice_fn(p3raw, 'peephole3_helper', P3_CONTRACT, ensures_false=canary)
     parts += ["// ---- real peephole helpers (optimize_bytecode.rs), R1e + contracts ----\n", p1, "\n", p2, "\n", p3, "\n",
               "// ---- second copy of peephole2_helper (same text) carrying only the encodability clause ----\n", p2e, "\n"]
+    # every other top-level item of optimize_bytecode.rs (none at the pinned commit): consts verbatim,
+    # fns with a contract from OPTIONAL_FN_CONTRACTS are verified, other fns become external_body
+    # (body not verified, nothing assumed about the result) and are listed in the evidence
+    src = S.read(OPT)
+    known = [S.item(OPT, rx) for rx in (r'pub\(crate\) fn optimize\(', r'fn optimization_pass\(', r'fn peephole1_helper\(',
+                                        r'fn peephole2_helper\(', r'fn peephole3_helper\(', r'impl Instr \{')]
+    rest = src
+    for t in known:
+        if rest.count(t) != 1:
+            raise S.SliceError("optimize_bytecode.rs: slice not found exactly once")
+        rest = rest.replace(t, '')
+    rest = re.sub(r'^use [^\n]*;\n', '', rest, flags=re.M)
+    extra_items = []
+    for m in re.finditer(r'^(?:pub(?:\(crate\))? )?(const|fn|struct|enum|type|static) (\w+)', rest, re.M):
+        kind, name = m.group(1), m.group(2)
+        txt = S.item(OPT, r'(?:pub(?:\(crate\))? )?%s %s\b' % (kind, name), with_attrs=False)
+        if kind == 'fn' and name in OPTIONAL_FN_CONTRACTS:
+            c, oid = OPTIONAL_FN_CONTRACTS[name]
+            txt = splice_fn_any(txt, name, c, canary)
+            extra_items.append((name, 'verified', oid))
+        elif kind == 'fn':
+            txt = "#[verifier::external_body]\n" + txt
+            extra_items.append((name, 'external_body', None))
+        else:
+            extra_items.append((name, kind, None))
+        parts += ["// ---- real (optimize_bytecode.rs), additional item ----\n", txt, "\n"]
+    rew['extra_items'] = extra_items
     # optimization_pass
     op = S.item(OPT, r'fn optimization_pass\(')
-    op = splice_fn(op, 'optimization_pass', PASS_CONTRACT, ret='out', ensures_false=False)
+    op = splice_fn(op, 'optimization_pass', PASS_CONTRACT, ret='out', ensures_false=canary)
     k = op.count("    while index < lines.len() {\n")
     if k != 1:
         raise S.SliceError("optimization_pass: loop head not found")
